@@ -24,7 +24,7 @@ import (
 func TestMain(m *testing.M) { stat.Main(m) }
 
 func privScalar(t *rapid.T) (*big.Int, string) {
-	kind := rapid.SampledFrom([]string{"1", "n-1", "2", "biased", "biased", "biased"}).Draw(t, "dkind")
+	kind := gen.Sampled([]string{"1", "n-1", "2", "biased", "biased", "biased"}).Draw(t, "dkind")
 	switch kind {
 	case "1":
 		return big.NewInt(1), kind
@@ -40,7 +40,7 @@ func privScalar(t *rapid.T) (*big.Int, string) {
 // "caller" overwrite everything it passed in or got back, which must not
 // influence later signatures.
 func signingKey(t *rapid.T, d *big.Int) *secec.PrivateKey {
-	switch rapid.SampledFrom([]string{"bytes", "bytes", "scalar-then-mutate", "bytes-then-scrub"}).Draw(t, "key-route") {
+	switch gen.Sampled([]string{"bytes", "bytes", "scalar-then-mutate", "bytes-then-scrub"}).Draw(t, "key-route") {
 	case "scalar-then-mutate":
 		sc := lib.Sc(d)
 		k, err := secec.NewPrivateKeyFromScalar(sc)
@@ -74,7 +74,7 @@ func signingKey(t *rapid.T, d *big.Int) *secec.PrivateKey {
 }
 
 func digestBytes(t *rapid.T, n int) ([]byte, string) {
-	kind := rapid.SampledFrom([]string{"zeros", "ones", ">=n", "e=n", "random", "random"}).Draw(t, "digkind")
+	kind := gen.Sampled([]string{"zeros", "ones", ">=n", "e=n", "random", "random"}).Draw(t, "digkind")
 	d := make([]byte, n)
 	switch kind {
 	case "ones":
@@ -162,7 +162,7 @@ func entropy(t *rapid.T) (io.Reader, func() io.Reader, string) {
 	if rapid.IntRange(0, 3).Draw(t, "rfc6979") == 0 {
 		return secec.RFC6979SHA256(), func() io.Reader { return secec.RFC6979SHA256() }, "rfc6979"
 	}
-	rd := gen.Reader(t, 32+rapid.SampledFrom([]int{0, 0, 1, 8, 31, 32, 33, 64, 100}).Draw(t, "extra"), "rng")
+	rd := gen.Reader(t, 32+gen.Sampled([]int{0, 0, 1, 8, 31, 32, 33, 64, 100}).Draw(t, "extra"), "rng")
 	return rd, func() io.Reader { return rd.Clone() }, "reader:" + rd.Desc
 }
 
@@ -206,7 +206,7 @@ func (p plainOpts) HashFunc() crypto.Hash { return p.h }
 func propSignOpts(t *rapid.T) {
 	d, dk := privScalar(t)
 	key := signingKey(t, d)
-	okind := rapid.SampledFrom([]string{"nil", "ecdsa", "ecdsa", "ecdsa", "plain-hash", "plain-struct"}).Draw(t, "optkind")
+	okind := gen.Sampled([]string{"nil", "ecdsa", "ecdsa", "ecdsa", "plain-hash", "plain-struct"}).Draw(t, "optkind")
 	var (
 		opts      crypto.SignerOpts
 		enc       = secec.EncodingASN1
@@ -216,20 +216,20 @@ func propSignOpts(t *rapid.T) {
 	switch okind {
 	case "ecdsa":
 		eo = &secec.ECDSAOptions{
-			Hash:       rapid.SampledFrom(gen.HashChoices).Draw(t, "hash"),
-			Encoding:   secec.SignatureEncoding(rapid.SampledFrom([]int{0, 0, 1, 1, 2, 2, 3, -1}).Draw(t, "enc")),
+			Hash:       gen.Sampled(gen.HashChoices).Draw(t, "hash"),
+			Encoding:   secec.SignatureEncoding(gen.Sampled([]int{0, 0, 1, 1, 2, 2, 3, -1}).Draw(t, "enc")),
 			SelfVerify: rapid.Bool().Draw(t, "sv"),
 		}
 		opts, enc, expectLen = eo, eo.Encoding, gen.HashSize(eo.Hash)
 	case "plain-hash":
-		h := rapid.SampledFrom(gen.HashChoices[1:]).Draw(t, "hash")
+		h := gen.Sampled(gen.HashChoices[1:]).Draw(t, "hash")
 		opts, expectLen = h, h.Size()
 	case "plain-struct":
-		h := rapid.SampledFrom(gen.HashChoices[1:]).Draw(t, "hash")
+		h := gen.Sampled(gen.HashChoices[1:]).Draw(t, "hash")
 		opts, expectLen = plainOpts{h}, h.Size()
 	}
 	var dlen int
-	switch rapid.SampledFrom([]string{"match", "match", "match", "match", "match", "match", "off", "short"}).Draw(t, "lenmode") {
+	switch gen.Sampled([]string{"match", "match", "match", "match", "match", "match", "off", "short"}).Draw(t, "lenmode") {
 	case "match":
 		dlen = expectLen
 		if dlen < 0 {
@@ -354,7 +354,7 @@ var _ = secp256k1.ScalarSize
 // reference encoding, (b) parse back, and (c) verify under Q.
 func propEncodeStage(t *rapid.T) {
 	var R ref.Pt
-	rk := rapid.SampledFrom([]string{"small-x", "small-x", "drawn", "x>=n"}).Draw(t, "Rkind")
+	rk := gen.Sampled([]string{"small-x", "small-x", "drawn", "x>=n"}).Draw(t, "Rkind")
 	switch rk {
 	case "small-x":
 		R = gen.SmallXPoint(t, "R").P
@@ -376,7 +376,7 @@ func propEncodeStage(t *rapid.T) {
 	}
 	// s: any byte length 1..32, top bit of the leading byte set or clear, or the low-s boundary
 	var s *big.Int
-	sk := rapid.SampledFrom([]string{"short", "short-topbit", "half", "special"}).Draw(t, "skind")
+	sk := gen.Sampled([]string{"short", "short-topbit", "half", "special"}).Draw(t, "skind")
 	switch sk {
 	case "short", "short-topbit":
 		n := rapid.IntRange(1, 31).Draw(t, "slen")
